@@ -1,5 +1,6 @@
 import RisorModel.Util
 import RisorModel.C10.Model
+import RisorModel.C10.ModelExt
 /-!
 Line-protocol front end of the C10 model (requests after the leading `C10` field).
 
@@ -22,6 +23,13 @@ Line-protocol front end of the C10 model (requests after the leading `C10` field
        (a produce-then-close round as one schedule; ok = every step that reports "closed" — nil / end — was taken in a closed and drained state)
   vms <vop,vop,…>                     → <vmOf,…> TAB distinct|shared TAB own|derailed TAB <ip,…> TAB <pos,…>
        vop := sp:p:(f|b|m) (thread p spawns a compiled function | builtin | bound method) | x:t (thread t executes a script step)
+  loops <cap> <lop,lop,…>             → <impl obs,…> TAB <spec obs,…> TAB <atMostOneIterator of the channel steps> TAB <queue i:k;i:k;… | -> TAB closed:rx TAB sent:dequeued:delivered:pending:held:dropped:inloop
+       lop := <op as in chanops> | en:t (thread t starts a range loop: Chan.Iter()) | lv:t (the loop ends: break / return / error / end of the channel)
+       obs := as in chanops | u (an enabled step without an observation)
+  mods <mop,mop,…>                    → <impl obs,…> TAB <spec obs,…> TAB <guard per step 0|1,…> TAB <thread;thread;…> TAB <cnt,…>
+       mop    := im:t:m (thread t imports module m) | ca:t:m:x (thread t calls m.bump(x)) | sp:p | fin:t | w:w:t
+       obs    := B | u | ran | v:r | P (the call faulted) | sp:t | r:v.v.v (wait: the results) | perr (wait: the thread's panic error)
+       thread := t:(a|run|ret|pan):v.v.v         cnt = counter of modules 0..3
 -/
 namespace Risor.C10
 open Risor.Util
@@ -158,6 +166,53 @@ def b01 (b : Bool) : String := if b then "1" else "0"
 
 def joinC (xs : List String) : String := if xs.isEmpty then "-" else ",".intercalate xs
 
+def parseLOp (s : String) : Option LOp :=
+  match s.splitOn ":" with
+  | ["en", t] => do pure (.enter (← natOf t))
+  | ["lv", t] => do pure (.leave (← natOf t))
+  | _ => (parseOp s).map .base
+
+def showLObs : Option (Option Obs) → String
+  | none => "B"
+  | some none => "u"
+  | some (some ob) => showObs (some ob)
+
+def parseMOp (s : String) : Option MOp :=
+  match s.splitOn ":" with
+  | ["im", t, m] => do pure (.imp (← natOf t) (← natOf m))
+  | ["ca", t, m, x] => do pure (.call (← natOf t) (← natOf m) (← natOf x))
+  | ["sp", p] => do pure (.spawn (← natOf p))
+  | ["fin", t] => do pure (.fin (← natOf t))
+  | ["w", w, t] => do pure (.wait (← natOf w) (← natOf t))
+  | _ => none
+
+def showNats (vs : List Nat) : String :=
+  if vs.isEmpty then "-" else ".".intercalate (vs.map toString)
+
+def showMObs : Option MObs → String
+  | none => "B"
+  | some .unit => "u"
+  | some .ran => "ran"
+  | some (.val r) => "v:" ++ toString r
+  | some .panic => "P"
+  | some (.spawned t) => "sp:" ++ toString t
+  | some (.ret vs) => "r:" ++ showNats vs
+  | some .perr => "perr"
+
+def showTSt : TSt → String
+  | .absent => "a"
+  | .running => "run"
+  | .returned => "ret"
+  | .panicked => "pan"
+
+/-- final state of a schedule of the module machine (the code as it is; steps that are not enabled are skipped) -/
+def mfinal (s : Mods) : List MOp → Mods
+  | [] => s
+  | o :: os =>
+    match mstep s o with
+    | some (s', _) => mfinal s' os
+    | none => mfinal s os
+
 def handle : List String → String
   | ["chanops", cap, ops] =>
     match natOf cap, (listOf "," ops).mapM parseOp with
@@ -208,6 +263,27 @@ def handle : List String → String
       let s := vtrace true {} ops
       joinC (s.vmOf.map toString) ++ "\t" ++ (if distinctVMs s then "distinct" else "shared") ++ "\t"
         ++ (if ownProgress s then "own" else "derailed") ++ "\t" ++ joinC (s.ip.map toString) ++ "\t" ++ joinC (s.pos.map toString)
+    | none => "error\tbad-request"
+  | ["loops", cap, ops] =>
+    match natOf cap, (listOf "," ops).mapM parseLOp with
+    | some cap, some ops =>
+      let (impl, sf) := ltraceWith lstep (linit cap) ops
+      let (spec, _) := ltraceWith lspecStep (linit cap) ops
+      joinC (impl.map showLObs) ++ "\t" ++ joinC (spec.map showLObs) ++ "\t" ++ toString (atMostOneIterator (baseOps ops))
+        ++ "\t" ++ (if sf.c.buf.isEmpty then "-" else ";".intercalate (sf.c.buf.map showMsg))
+        ++ "\t" ++ toString sf.c.closed ++ ":" ++ toString sf.c.rx
+        ++ "\t" ++ toString sf.c.sent.length ++ ":" ++ toString sf.c.deq.length ++ ":" ++ toString sf.c.deliv.length ++ ":"
+        ++ toString sf.c.pend.length ++ ":" ++ toString sf.held.length ++ ":" ++ toString sf.dropped.length ++ ":" ++ toString sf.inLoop.length
+    | _, _ => "error\tbad-request"
+  | ["mods", ops] =>
+    match (listOf "," ops).mapM parseMOp with
+    | some ops =>
+      let sf := mfinal {} ops
+      let threads := (List.range sf.nthreads).map fun t =>
+        toString t ++ ":" ++ showTSt (sf.st t) ++ ":" ++ showNats (sf.outs t)
+      joinC ((mtrace mstep {} ops).map showMObs) ++ "\t" ++ joinC ((mtrace mspecStep {} ops).map showMObs) ++ "\t"
+        ++ joinC ((knownTrace {} ops).map b01) ++ "\t" ++ ";".intercalate threads ++ "\t"
+        ++ joinC ((List.range 4).map fun m => toString (sf.cnt m))
     | none => "error\tbad-request"
   | _ => "error\tunknown-request"
 
